@@ -185,3 +185,20 @@ Theorem C19_tables_link_atoms :
   need_conversion_const = [("DataType", false); ("DateType", false); ("TimestampType", true);
                            ("StructType", true); ("UserDefinedType", true)]%string.
 Proof. exact tables_link_atoms. Qed.
+
+(* the Python classes each SQL type accepts / each Python type is inferred as (regenerated tables, pinned) *)
+Theorem C19_acceptable_table :
+  acceptable_types =
+    [("BooleanType", ["bool"]); ("ByteType", ["int"]); ("ShortType", ["int"]); ("IntegerType", ["int"]);
+     ("LongType", ["int"]); ("FloatType", ["float"]); ("DoubleType", ["float"]); ("DecimalType", ["Decimal"]);
+     ("StringType", ["str"]); ("BinaryType", ["bytearray"]); ("DateType", ["date"; "datetime"]);
+     ("TimestampType", ["datetime"]); ("ArrayType", ["list"; "tuple"; "array"]); ("MapType", ["dict"]);
+     ("StructType", ["tuple"; "list"; "dict"])]%string.
+Proof. exact acceptable_table. Qed.
+Theorem C19_type_mappings_table :
+  type_mappings =
+    [("NoneType", "NullType"); ("bool", "BooleanType"); ("int", "LongType"); ("float", "DoubleType");
+     ("str", "StringType"); ("bytearray", "BinaryType"); ("Decimal", "DecimalType"); ("date", "DateType");
+     ("datetime", "TimestampType"); ("time", "TimestampType")]%string /\
+  infer_decimal = (38, 18) /\ decimal_default = (10, 0).
+Proof. exact type_mappings_table. Qed.
